@@ -14,6 +14,9 @@ on listings.
   holds) and `SameTree` (equality as finite maps) of the workspace read through its links;
 * (a) `status_after_commit`, `status_after_checkout`;
 * (d) `status_detects_deleted / _modified / _added / _nested / _edit`;
+  `dir_upToDate_needs_manifest`: a directory is reported `ContentsMatch` only if its manifest is
+  recorded and in the cache (`dir_uncommitted_not_upToDate`, and the toy witnesses
+  `empty_dir_no_checksum_not_upToDate`, `empty_dir_manifest_missing_not_upToDate`);
 * (e) `render_uptodate_iff`, `fileStatus_render_iff`, and two negative witnesses:
   `render_hides_missing_subdir` (flag false, rendering shows nothing stale) and
   `status_cm_link_to_manifest` (a link to the manifest object where a sub-directory should be:
@@ -192,8 +195,7 @@ theorem dirS {ctx : Ctx κ} (g : Good ctx) {es : List (Name × Node κ)}
     have htd : treeDigest ctx nm (Node.dir es) = m.digest ctx := by simp [treeDigest, hsort, m]
     rw [hfuel, htd]
     simp only [UpToDate, Node.isDir, if_true]
-    exact ⟨es', childrenOf ctx es, rfl,
-      by simp [statusManifest, hh, Store.has_of_get ho, hread], h1, h2⟩
+    exact ⟨es', childrenOf ctx es, rfl, ⟨hh, Store.has_of_get ho⟩, hread, h1, h2⟩
 
 mutual
 theorem commitNode_S {ctx : Ctx κ} (g : Good ctx) : ∀ (t : Node κ),
@@ -284,7 +286,7 @@ theorem status_detects_deleted {ctx : Ctx κ} {s : Store κ} {fuel : Nat} {nm : 
   cases hcm : st.cm with
   | false => rfl
   | true =>
-    obtain ⟨st', hst', hcm'⟩ := (hiff.mp hcm).1 k hk
+    obtain ⟨st', hst', hcm'⟩ := (hiff.mp hcm).2.1 k hk
     unfold childStatus at hst'
     rw [hdel] at hst'
     split at hst'
@@ -305,7 +307,7 @@ theorem status_detects_modified {ctx : Ctx κ} {s : Store κ} {fuel : Nat} {nm :
   cases hcm : st.cm with
   | false => rfl
   | true =>
-    obtain ⟨st', hst', hcm'⟩ := (hiff.mp hcm).1 k hk
+    obtain ⟨st', hst', hcm'⟩ := (hiff.mp hcm).2.1 k hk
     unfold childStatus at hst'
     simp only [hf, Bool.false_eq_true, if_false, Except.ok.injEq] at hst'
     subst hst'
@@ -328,7 +330,7 @@ theorem status_detects_added {ctx : Ctx κ} {s : Store κ} {fuel : Nat} {nm : By
   cases hcm : st.cm with
   | false => rfl
   | true =>
-    have := (hiff.mp hcm).2 e he
+    have := (hiff.mp hcm).2.2 e he
     rw [hnew] at this; cases this
 
 /-- **an edit deeper down** propagates: a sub-directory entry whose own status is not
@@ -344,11 +346,49 @@ theorem status_detects_nested {ctx : Ctx κ} {s : Store κ} {fuel : Nat} {nm : B
   cases hcm : st.cm with
   | false => rfl
   | true =>
-    obtain ⟨st2, hst2, hcm2⟩ := (hiff.mp hcm).1 k hk
+    obtain ⟨st2, hst2, hcm2⟩ := (hiff.mp hcm).2.1 k hk
     unfold childStatus at hst2
     simp only [hd, if_true] at hst2
     rw [hsub] at hst2; cases hst2
     rw [hcm'] at hcm2; cases hcm2
+
+/-- **a directory is up to date only if its manifest is recorded and in the cache** (the repaired
+`dirArtifactStatus`: `ContentsMatch` starts from `HasChecksum && ChecksumInCache`).  Holds for every
+fuel, recursive or not, and whatever sits in the workspace. -/
+theorem dir_upToDate_needs_manifest {ctx : Ctx κ} {s : Store κ} {fuel : Nat} {nm : Bytes}
+    {noRec : Bool} {sum : Digest} {cur : Option (Node κ)} {st : Status}
+    (h : dirStatus ctx s fuel nm noRec sum cur = .ok st) (hcm : st.cm = true) :
+    hasSum sum = true ∧ s.has sum = true := by
+  cases fuel with
+  | zero => simp [dirStatus] at h
+  | succ fuel =>
+    simp only [dirStatus] at h
+    split at h
+    · split at h; · cases h
+      split at h; · cases h
+      split at h; · cases h
+      simp only [Except.ok.injEq] at h
+      subst h
+      simp only [quick, Bool.and_eq_true] at hcm
+      exact ⟨hcm.1.1.1, hcm.1.1.2.2⟩
+    · simp only [Except.ok.injEq] at h
+      subst h
+      simp only [quick] at hcm
+      split at hcm
+      · simp only [Bool.and_eq_true] at hcm
+        exact hcm.1
+      · cases hcm
+
+/-- consequently a directory artifact that was never committed (`sum = ""`) is never reported
+up to date, however empty the workspace directory is -/
+theorem dir_uncommitted_not_upToDate {ctx : Ctx κ} {s : Store κ} {fuel : Nat} {nm : Bytes}
+    {noRec : Bool} {cur : Option (Node κ)} {st : Status}
+    (h : dirStatus ctx s fuel nm noRec "" cur = .ok st) : st.cm = false := by
+  cases hcm : st.cm with
+  | false => rfl
+  | true =>
+    have := (dir_upToDate_needs_manifest h hcm).1
+    rw [hasSum_empty] at this; cases this
 
 /-- in `UpToDate` terms: whatever is not up to date is never reported clean and well typed -/
 theorem status_detects_edit {ctx : Ctx κ} {s : Store κ} {fuel : Nat} {nm : Bytes} {sum : Digest}
@@ -540,9 +580,20 @@ example : ∃ st, dirStatus ctx store 3 [] false "mmm"
     (some (.dir [([120], .file 0), ([115], .dir [([122], .file 1)]), ([101], .dir [])])) = .ok st ∧
     st.cm = false := ⟨_, rfl, rfl⟩
 open C05 in
--- an empty directory with an uncommitted checksum has ContentsMatch = true (as in the Go code)
-example : ∃ st, dirStatus ctx store 3 [] false "" (some (.dir [])) = .ok st ∧ st.cm = true ∧
-    st.has = false ∧ st.render = "1x empty directory" := ⟨_, rfl, rfl, rfl, by decide⟩
+/-- **repaired behaviour, concretely (1).**  An EMPTY workspace directory whose artifact has no
+checksum (never committed): `ContentsMatch = false`.  Before the repair of `dirArtifactStatus`
+(`ContentsMatch` started from `true`) this was `true`. -/
+theorem empty_dir_no_checksum_not_upToDate :
+    ∃ st, dirStatus ctx store 3 [] false "" (some (.dir [])) = .ok st ∧ st.cm = false ∧
+      st.has = false ∧ st.inCache = false ∧ st.children = [] ∧ st.render = "1x empty directory" :=
+  ⟨_, rfl, rfl, rfl, rfl, rfl, by decide⟩
+open C05 in
+/-- **repaired behaviour, concretely (2).**  The same empty directory with a well-formed checksum
+whose manifest is NOT in the store: `ContentsMatch = false` (was `true` before the repair). -/
+theorem empty_dir_manifest_missing_not_upToDate :
+    ∃ st, dirStatus ctx store 3 [] false "zzz" (some (.dir [])) = .ok st ∧ st.cm = false ∧
+      st.has = true ∧ st.inCache = false ∧ st.children = [] ∧ st.render = "1x empty directory" :=
+  ⟨_, rfl, rfl, rfl, rfl, rfl, by decide⟩
 open C05 in
 theorem C05.store_nodup : ManifestsNodup ctx store := by
   intro d cs h
@@ -598,6 +649,10 @@ end Dud
 #print axioms Dud.status_detects_added
 #print axioms Dud.status_detects_nested
 #print axioms Dud.status_detects_edit
+#print axioms Dud.dir_upToDate_needs_manifest
+#print axioms Dud.dir_uncommitted_not_upToDate
+#print axioms Dud.empty_dir_no_checksum_not_upToDate
+#print axioms Dud.empty_dir_manifest_missing_not_upToDate
 #print axioms Dud.render_uptodate_iff
 #print axioms Dud.fileStatus_render_iff
 #print axioms Dud.render_hides_missing_subdir
